@@ -186,7 +186,28 @@ example : decodeForm (encodeForm (fun _ => none)
     ⟨"a\nb", "l1\n\nl2", "form", [⟨"boolean", "v", "", "", true, ["yes", "1", "0"], []⟩]⟩ []) =
     some ⟨"a b", "l1\nl2", "form", [⟨"boolean", "v", "", "", true, ["1"], []⟩]⟩ := by decide
 
-/-- the normal form of a field is a fixed point of the value filter -/
+/-- the value filter is idempotent: the normal form of a field is a fixed point (decoding and
+re-encoding a decoded form changes nothing more) -/
+theorem C19_wire_idem (jn : JidNorm) (typ : String) (vs : List String) :
+    wireValues jn typ (wireValues jn typ vs) = wireValues jn typ vs := by
+  unfold wireValues
+  generalize false = first
+  induction vs generalizing first with
+  | nil => simp [wireValuesAux]
+  | cons x xs ih =>
+    simp only [wireValuesAux]
+    split
+    · exact ih first
+    · split
+      · simp [wireValuesAux]
+      · split
+        · exact ih first
+        · split
+          · exact ih first
+          · rename_i h1 h2 h3 h4
+            simp [wireValuesAux, h1, h2, h3, h4, ih true]
+
+/-- the trees written for a form and for a submission are balanced -/
 theorem C19_form_balanced (jn : JidNorm) (frm : Form) (vals : Vals) :
     balanced (flatten (encodeForm jn frm vals)) = true ∧
     balanced (flatten (submit jn frm vals).1) = true :=
